@@ -1169,10 +1169,11 @@ func buildConn(r *rng, sc *sessionCase, kinds []string, nonce *uint32, blocks fu
 			rp := pc.reply(nonceReply(*nonce), crc)
 			// well inside the receive timeout (300 ms) even on a heavily loaded machine
 			rs = append(rs, reaction{pieces: []piece{{data: rp[:32], delay: 4000000}, {data: rp[32:], delay: 3000000}}})
-		case "toolate": // the complete reply arrives only after the receive timeout has passed: on a connection the client has given up
+		case "toolate": // the complete reply arrives long after the receive timeout has passed (the margin covers a client that is
+			// descheduled between its Write and the arming of its read deadline): on a connection the client has given up
 			*nonce++
 			rp := pc.reply(nonceReply(*nonce), crc)
-			rs = append(rs, reaction{pieces: []piece{{data: rp, delay: sc.rt + 60000000}}})
+			rs = append(rs, reaction{pieces: []piece{{data: rp, delay: 2*sc.rt + 100000000}}})
 		case "silent":
 			rs = append(rs, reaction{})
 		case "close-before":
